@@ -16,6 +16,11 @@ EXHAUSTIVE = {'quick': False, 'thorough': False}
 REQUIRED_COUNTERS = ['checked']
 
 
+# observed contracts (not proof targets): cross-checked under the properties that depend on the reordering primitives
+EXTRA = {'C07': ['dd.bdd.BDD.swap!observed', 'dd.bdd.reorder!observed'], 'C02': ['dd.bdd.BDD.swap!observed'],
+         'C06': ['dd.bdd.BDD.swap!observed'], 'C09': ['dd.bdd.reorder!observed'], 'C17': ['dd.bdd.BDD.swap!observed']}
+
+
 def _selected():
     """case keys whose contract is a proof target of the property under check"""
     from vlib.vc import contracts_all as CA
@@ -27,6 +32,7 @@ def _selected():
         key = t.get('contract', t['function'])
         wanted.add(key)
         wanted.add(key.replace('!body', '').replace(':one', '').replace(':several', ''))   # the decorated form seen by callers
+    wanted.update(EXTRA.get(pid, []))
     if pid == 'ALL':
         return list(CC.CASES)
     return [k for k, (contract, _) in CC.CASES.items() if contract in wanted]
